@@ -203,7 +203,7 @@ def gen_det(rng, nmax):
             for j in range(p):
                 X[i][j] += 8 if (i // 3) % 2 == 0 else -8
     return {"det": det, "n": n, "p": p, "X": X, "index": rng.choice(INDEXES), "columns": rng.choice(["default", "strings"]),
-            "m": rng.choice([1, 2, 3]), "M": rng.choice([3, 4, 100])}
+            "m": rng.choice([1, 2, 3]), "M": rng.choice([3, 4, 100]), "ignore": rng.random() < 0.3}
 
 
 def build(case):
@@ -218,9 +218,11 @@ def build(case):
     if d == "sbs":
         return SeededBinarySegmentation(min_segment_length=m, threshold_scale=0.5)
     if d == "capa":
-        return CAPA(min_segment_length=max(m, 2), max_segment_length=max(case["M"], max(m, 2)), collective_penalty_scale=0.3, point_penalty_scale=0.3)
+        return CAPA(min_segment_length=max(m, 2), max_segment_length=max(case["M"], max(m, 2)), collective_penalty_scale=0.3, point_penalty_scale=0.3,
+                    ignore_point_anomalies=case.get("ignore", False))
     if d == "mvcapa":
-        return MVCAPA(min_segment_length=max(m, 2), max_segment_length=max(case["M"], max(m, 2)), collective_penalty_scale=0.3, point_penalty_scale=0.3)
+        return MVCAPA(min_segment_length=max(m, 2), max_segment_length=max(case["M"], max(m, 2)), collective_penalty_scale=0.3, point_penalty_scale=0.3,
+                      ignore_point_anomalies=case.get("ignore", False))
     if d == "cbs":
         return CircularBinarySegmentation(min_segment_length=m, threshold_scale=0.3)
     return StatThresholdAnomaliser(PELT(min_segment_length=m, penalty_scale=0.5), stat=np.mean, stat_lower=-2.0, stat_upper=2.0)
